@@ -60,6 +60,40 @@ CHECKS = {
         "OpenSSL 3.0.20 memory BIOs / loopback kernel buffers; sizes above 4 MiB only in the thorough tier",
         "DESIGN.md §2 C06",
     ),
+    "C15": (
+        "exploration",
+        "exhaustive stall-offset enumeration under a virtual clock (bare protocol and both TLS stacks in memory) + "
+        "Hypothesis-generated timer/data/gate/disconnect orderings",
+        "Every stall offset of representative requests and every ciphertext offset of the client's handshake+request "
+        "(TLS 1.2/1.3, both backends) is run to a 3600 s virtual horizon: the connection must be closed within the "
+        "request/handshake bound with a 40 when a session exists, and a complete request must never receive a timeout "
+        "response. Liveness is decided as bounded-horizon safety.",
+        "virtual-time loop (vlib/vloop.py) over CPython asyncio; handshake bound <= 90 s, stdlib path allows the 30 s "
+        "asyncio shutdown grace",
+        "DESIGN.md §2 C15",
+    ),
+    "C04": (
+        "exploration",
+        "Hypothesis-generated middleware chains (real + scripted components) x requests x schedules; reference "
+        "chain-walk oracle; spy handlers; real start_server assembly over in-memory TLS",
+        "For generated chains in every order, Gemini and Titan requests and interleavings, spy request/upload handlers "
+        "must stay silent while any component is pending and forever when the reference chain walk refuses; the client "
+        "must receive exactly the first rejection; the chain must see the transport's peer address, the normalised URL "
+        "and sha256(DER) of the certificate actually presented (checked on the captured start_server assembly).",
+        "reference semantics for real components restricted to exact-address lists and literal prefixes",
+        "DESIGN.md §2 C04",
+    ),
+    "C20": (
+        "exploration",
+        "exhaustive construction-path x protocol-version matrix with control handshakes + Hypothesis plaintext "
+        "payloads against both stacks in memory",
+        "All 12 server context construction paths and the client contexts are offered TLS 1.0-1.3 by a permissive "
+        "peer (security level 0): below 1.2 no handshake completes, no handler runs and no Gemini-shaped bytes come "
+        "back, while a control handshake proves the old version is negotiable; 1.2/1.3 are served. Plaintext never "
+        "reaches a handler.",
+        "system OpenSSL 3.0.20 (SSLv3 compiled out); memory-BIO handshakes",
+        "DESIGN.md §2 C20",
+    ),
 }
 
 PENDING_REASON = "check not built yet in this round (work in progress; technique applies, see DESIGN.md)"
